@@ -8,7 +8,8 @@ from .h_common import SHAPES, cluster_status, enabled_events, fire, setup_world,
 from .h_submit import StatusObserver
 
 
-def h_cancel(shapes=("indep3", "chain3"), bss=(1,), maxns=(1, None), max_steps=40, followups=2, complete_flag=(True,)):
+def h_cancel(shapes=("indep3", "chain3"), bss=(1,), maxns=(1, None), max_steps=40, followups=2, complete_flag=(True,),
+             time_based=(False,)):
     def harness(ex):
         from world.world import Hang
 
@@ -26,8 +27,16 @@ def h_cancel(shapes=("indep3", "chain3"), bss=(1,), maxns=(1, None), max_steps=4
         nm = names(N)
         bs = bss[ex.choice("bs", len(bss))]
         maxn = maxns[ex.choice("maxn", len(maxns))]
+        tb = time_based[ex.choice("time_based", len(time_based))]
         jobs = [dict(name=nm[i], command="job " + nm[i], blocked_by={nm[b] for b in blockers.get(i, [])}) for i in range(N)]
-        cfg = write_config(w, jobs, [slurm_group("default", per_node_batch_size=bs, max_nodes=maxn)])
+        if tb:  # one job per batch by time: estimates of 6 minutes with a walltime of 10
+            for j in jobs:
+                j["estimated_run_minutes"] = 6
+            grp = slurm_group("default", time_based_batching=True, num_parallel_processes_per_node=1, walltime="0:10:00",
+                              max_nodes=maxn)
+        else:
+            grp = slurm_group("default", per_node_batch_size=bs, max_nodes=maxn)
+        cfg = write_config(w, jobs, [grp])
         out = os.path.join(w.root, "out")
         obs = StatusObserver(ex, out, N)
         w.unlock_observer = obs
